@@ -315,6 +315,10 @@ func IsAvailable(name string) bool {
 	if !parentExpired(ctx, 0, fragments) {
 		return false
 	}
+	if l == 1 {
+		// an expired TLD: there is no enclosing name whose records could conflict
+		return true
+	}
 	return len(getParentConflictingRecord(ctx, name, fragments)) == 0
 }
 
